@@ -541,13 +541,27 @@ func runC12(w *World, r *Report) {
 				mm = m
 			}
 		})
+		// the map that is served: a new map filled by the copy loop, or a clone of the stored
+		// headers (maps.Clone / DeepCopyHeaders copies every entry, so there is no loop to check)
+		var freshMap ssa.Value
+		cloned := false
+		if mm != nil {
+			freshMap = mm
+		}
+		Instrs(gh, func(in ssa.Instruction) {
+			if mu, ok := in.(*ssa.MapUpdate); ok && mm == nil {
+				if c, isC := peel(mu.Map).(*ssa.Call); isC && uncopied(c) != ssa.Value(c) && Path(uncopied(c)) == "local:cachedResponse.Headers" {
+					freshMap, cloned = mu.Map, true
+				}
+			}
+		})
 		nUpd := 0
 		Instrs(gh, func(in ssa.Instruction) {
 			mu, ok := in.(*ssa.MapUpdate)
 			if !ok {
 				return
 			}
-			fresh := mm != nil && mu.Map == ssa.Value(mm)
+			fresh := freshMap != nil && mu.Map == freshMap
 			if !fresh {
 				r.Fail("R6", "getUpdatedHeaders/writes-fresh-map", posOf(mu), "header written into %s, which is not a fresh map (the stored response must not be modified in place)", Path(mu.Map))
 				return
@@ -559,6 +573,10 @@ func runC12(w *World, r *Report) {
 				return (op == "==") == pol && op != ""
 			}
 			p := Path(mu.Value)
+			if cloned {
+				// the only write into a clone is the recomputed value under the configured header
+				isRA = func(pol bool) bool { return pol && Path(mu.Key) == "param:remedyConfig.RetryAfterHeader" }
+			}
 			if strings.HasPrefix(p, "remedies.calcNewRetryAfter(") {
 				nUpd++
 				c := peel(mu.Value).(*ssa.Extract).Tuple.(*ssa.Call)
@@ -577,7 +595,9 @@ func runC12(w *World, r *Report) {
 				hdr = n.Block()
 			}
 		})
-		if hdr == nil {
+		if cloned {
+			r.Hold("R6", "getUpdatedHeaders/copy-loop-runs-to-exhaustion", gh.Pos(), 1, "the stored headers are copied by a library clone (every entry)")
+		} else if hdr == nil {
 			r.Undec("R6", "getUpdatedHeaders/copy-loop", gh.Pos(), "range over the stored headers not found")
 		} else {
 			ex := loopExits(hdr, false)
@@ -600,11 +620,11 @@ func runC12(w *World, r *Report) {
 					"no headers are returned only when reading (%q nil) or recomputing (%q nil) the retry-after value failed", op1, op2)
 				continue
 			}
-			if mm != nil && alt.Val == ssa.Value(mm) {
+			if freshMap != nil && alt.Val == freshMap {
 				r.Check(op1 == "==" && op2 == "==", "R6", "getUpdatedHeaders/fresh-map-on-success", posOf(alt.Ret),
 					"the updated headers are returned when both readRetryAfter (err %q nil) and calcNewRetryAfter (err %q nil) succeeded", op1, op2)
 			}
-			ok := mm != nil && alt.Val == ssa.Value(mm) || Path(uncopied(alt.Val)) == "local:cachedResponse.Headers" && condsHave(alt.Conds, true, func(v ssa.Value) bool { return strings.Contains(Path(v), "RetryAfterType != ") })
+			ok := freshMap != nil && alt.Val == freshMap || Path(uncopied(alt.Val)) == "local:cachedResponse.Headers" && condsHave(alt.Conds, true, func(v ssa.Value) bool { return strings.Contains(Path(v), "RetryAfterType != ") })
 			r.Check(ok, "R6", "getUpdatedHeaders/returns", posOf(alt.Ret), "returns the fresh map (or the stored headers when the retry-after type is not relative): %s", trunc(Path(alt.Val), 60))
 		}
 	}
